@@ -12,7 +12,7 @@ SPEC = {
              "runBridgeLifecycle) over memory, Redis (miniredis), the tiered store with and without shared Redis, and two "
              "value-shape doubles; every result is compared with the model and judged by the theorem's predicate. Streams: "
              "field fidelity (unicode, control characters, empty, 64 KiB strings, integers at the 2^53 and int64 boundaries), "
-             "id families (three ids alive together on three nodes that share a prefix and differ at one byte: lengths 1..4096, first byte / bytes 100-130 / last byte, separators, the key prefixes themselves, case / trailing NUL / unicode normal forms; the same as node ids), forwarding (a target arrives on a node: Lookup, then the REAL SessionManager.handleCrossNodeTargetConnection -> lookupTunnelRouting -> processCrossNodeForward -> handleLocalBridgeWait | forwardToSourceNode -> TunnelConnectionManager.CreateDedicatedConnection wired to RoutingTable.GetNodeAddress; four live TCP endpoints report which of them received the TargetReady frame; source nodes re-register at other endpoints between tunnels while the old endpoint keeps accepting, several tunnels per forwarding node, missing / empty / expired addresses), the polling lookup (real lookupTunnelRouting behind a gated store: registrations, removals, lapses, restarts between two of its polls), crash-restarts of nodes over the same storage, overlapping lookups (the storage reply of one lookup is held back — go-redis hook inside redis.Storage.Get / answer-holding wrapper — while the id is removed, lapses, is re-registered; later lookups on the same and other nodes are judged at their own start), lookup results scribbled over by the caller, every event sequence up to length 3 (thorough: 4) over an 8 (10) letter alphabet per backend, random "
+             "id families (three ids alive together on three nodes that share a prefix and differ at one byte: lengths 1..4096, first byte / bytes 100-130 / last byte, separators, the key prefixes themselves, case / trailing NUL / unicode normal forms; the same as node ids), forwarding (a target arrives on a node: Lookup, then the REAL SessionManager.handleCrossNodeTargetConnection -> lookupTunnelRouting -> processCrossNodeForward -> handleLocalBridgeWait | forwardToSourceNode -> TunnelConnectionManager.CreateDedicatedConnection wired to RoutingTable.GetNodeAddress; four live TCP endpoints report which of them received the TargetReady frame; source nodes re-register at other endpoints between tunnels while the old endpoint keeps accepting, several tunnels per forwarding node, missing / empty / expired addresses), the polling lookup (real lookupTunnelRouting behind a gated store: registrations, removals, lapses, restarts between two of its polls), removals under a cancelled / deadline-exceeded caller context (two of five removals in every stream), crash-restarts of nodes over the same storage, overlapping lookups (the storage reply of one lookup is held back — go-redis hook inside redis.Storage.Get / answer-holding wrapper — while the id is removed, lapses, is re-registered; later lookups on the same and other nodes are judged at their own start), lookup results scribbled over by the caller, every event sequence up to length 3 (thorough: 4) over an 8 (10) letter alphabet per backend, random "
              "histories with exact Redis-clock boundaries, real-time histories with 300/400 ms ttls probed at <= 0.5 ttl or >= 1.6 ttl; non-trivial = at "
              "least two events; distinct = distinct case strings"),
     "trusted_base": [
